@@ -15,8 +15,31 @@ Definition lower_ascii (c : ascii) : ascii :=
   let n := nat_of_ascii c in
   if (65 <=? n) && (n <=? 90) then ascii_of_nat (n + 32) else c.
 
+(* str.lower() on the UTF-8 bytes of a name.  ASCII letters are lower-cased; of all non-ASCII code points exactly
+   two lower-case to something containing an ASCII letter (census run by the harness against CPython on every
+   check): U+212A KELVIN SIGN (E2 84 AA) -> "k" and U+0130 (C4 B0) -> "i" + U+0307 (CC 87).  Every other
+   non-ASCII byte is left as it is: CPython maps such characters to non-ASCII characters, which can neither
+   become nor stop being equal to an ASCII key of the extension map. *)
+Definition is_byte (c : ascii) (n : nat) : bool := nat_of_ascii c =? n.
+
 Fixpoint lower (s : string) : string :=
-  match s with EmptyString => EmptyString | String c t => String (lower_ascii c) (lower t) end.
+  match s with
+  | EmptyString => EmptyString
+  | String a t1 =>
+      match t1 with
+      | EmptyString => String (lower_ascii a) EmptyString
+      | String b t2 =>
+          if is_byte a 196 && is_byte b 176
+          then String "i" (String (ascii_of_nat 204) (String (ascii_of_nat 135) (lower t2)))
+          else match t2 with
+               | EmptyString => String (lower_ascii a) (lower t1)
+               | String c t3 =>
+                   if is_byte a 226 && is_byte b 132 && is_byte c 170
+                   then String "k" (lower t3)
+                   else String (lower_ascii a) (lower t1)
+               end
+      end
+  end.
 
 Definition is_dot (c : ascii) : bool := Ascii.eqb c ".".
 
@@ -88,8 +111,11 @@ Record quirks := mk_quirks {
   (* the shebang fallback is applied to every file whose extension is not in the map, not only to
      extensionless files (patched table: with the flag on the model follows the guard shape found in the
      source, Gen.shebang_guard_any_ext; with the flag off it is confined to extensionless names) *)
-  q_shebang_any_ext : bool }.
-Definition ideal : quirks := mk_quirks false.
+  q_shebang_any_ext : bool;
+  (* the name-based test-file exemptions of method-property, magic-numbers (Python) and stringly-typed compare
+     the extension case-sensitively (`test_x.PY` is analysed as Python but is not a "test_*.py" file) *)
+  q_name_exemption_ext_case : bool }.
+Definition ideal : quirks := mk_quirks false false.
 
 (* ------------------------------------------------------------------ language detection *)
 Definition ext_of (name : string) : string :=
@@ -115,12 +141,49 @@ Definition guard (r : rule) (lang : string) : bool :=
 Definition an_key (r : rule) (lang : string) : string :=
   match r_langs r with None => "*" | Some _ => lang end.
 
-Definition rule_result (t : atab) (r : rule) (lang : string) : list viol :=
-  if guard r lang then an t (r_id r) (an_key r lang) else [].
+(* ---- name-based exemptions (Gen.name_exemptions): a file whose NAME satisfies the predicate gets no finding of the rule *)
+Fixpoint ends_with (n s : string) : bool :=
+  String.eqb n s || match s with EmptyString => false | String _ t => ends_with n t end.
+
+Definition natom (a : nkind * string) (name : string) : bool :=
+  match fst a with
+  | NStarts => String.prefix (snd a) name
+  | NEnds => ends_with (snd a) name
+  | NContains => contains (snd a) name
+  | NEq => String.eqb name (snd a)
+  end.
+
+Definition dnf_holds (d : list (list (nkind * string))) (name : string) : bool :=
+  existsb (fun conj => forallb (fun a => natom a name) conj) d.
+
+Definition exempt (r : rule) (lang name : string) : bool :=
+  existsb (fun e => String.eqb (fst (fst e)) (r_id r) && smem lang (snd (fst e)) && dnf_holds (snd e) name) name_exemptions.
+
+(* the name with its extension lower-cased: the name the property looks at ("according to its extension, case-insensitively") *)
+Fixpoint take (n : nat) (s : string) : string :=
+  match n, s with
+  | S k, String c t => String c (take k t)
+  | _, _ => EmptyString
+  end.
+Definition canon_name (name : string) : string :=
+  let suf := py_suffix name in
+  (take (String.length name - String.length suf) name ++ lower suf)%string.
+
+(* The oracle table holds, per rule and language, the findings on the canonically named file (whose exemptions
+   are therefore already applied) and, under the rule id prefixed with "raw:", the findings on a neutrally named
+   copy (no exemption applies).  With the flag on the code evaluates the exemption on the name as spelled. *)
+Definition raw_id (rid : string) : string := ("raw:" ++ rid)%string.
+
+Definition rule_result (q : quirks) (t : atab) (r : rule) (lang name : string) : list viol :=
+  if guard r lang then
+    if q_name_exemption_ext_case q && negb (Bool.eqb (exempt r lang name) (exempt r lang (canon_name name)))
+    then (if exempt r lang name then [] else an t (raw_id (r_id r)) (an_key r lang))
+    else an t (r_id r) (an_key r lang)
+  else [].
 
 (* every registered rule runs on every file (Orchestrator._get_rules_for_file) *)
-Definition run_all (t : atab) (lang : string) : list viol :=
-  flat_map (fun r => rule_result t r lang) rule_table.
+Definition run_all (q : quirks) (t : atab) (lang name : string) : list viol :=
+  flat_map (fun r => rule_result q t r lang name) rule_table.
 
 (* when a rule loads (and validates) its section, relative to its own guards - hand-modelled control
    flow of the check() methods, validated by the correspondence check *)
@@ -193,7 +256,7 @@ Definition run_cmd (q : quirks) (cmd : string) (c : cfg) (t : atab) (f : file) :
   let lang := detect q f in
   if aborts c f lang then Aborted
   else match lookup cmd cli_filters with
-       | Some atoms => Ok (filter (fun v => passes atoms (fst v)) (run_all t lang))
+       | Some atoms => Ok (filter (fun v => passes atoms (fst v)) (run_all q t lang (f_name f)))
        | None => Aborted
        end.
 
@@ -271,8 +334,10 @@ Definition in_registry (pkg rid : string) : bool :=
    rule analyses ("*" for agnostic rules), and carries only rule ids registered for the rule's package *)
 Definition key_ok (r : rule) (k : string) : bool :=
   match r_langs r with None => String.eqb k "*" | Some ls => smem k ls end.
+Definition base_id (rid : string) : string :=
+  if String.prefix "raw:" rid then String.substring 4 (String.length rid - 4) rid else rid.
 Definition entry_good (e : (string * string) * list viol) : bool :=
-  let rid := fst (fst e) in
+  let rid := base_id (fst (fst e)) in
   let k := snd (fst e) in
   existsb (fun r => String.eqb (r_id r) rid) rule_table
   && forallb (fun r => negb (String.eqb (r_id r) rid)
@@ -281,6 +346,10 @@ Definition entry_good (e : (string * string) * list viol) : bool :=
 Definition atab_good (t : atab) : bool := forallb entry_good t.
 
 Definition is_command (cmd : string) : bool := match lookup cmd cmd_owner with Some _ => true | None => false end.
+
+(* the name-exemption flag cannot matter: it is off, or the extension is already spelled in lower case *)
+Definition exemption_inert (q : quirks) (f : file) : bool :=
+  negb (q_name_exemption_ext_case q) || String.eqb (canon_name (f_name f)) (f_name f).
 
 (* the domain of C15: every section of the configuration is valid (none is rejected by its linter's config class) *)
 Definition cfg_clean (c : cfg) : bool := forallb (fun s => match s_rej s with [] => true | _ => false end) c.
